@@ -216,6 +216,102 @@ static void enum_range(int level, const std::function<bool(const json &)> &emit)
   }
 }
 
+// ------------------------------------------------------------ ranges built through the API (Add) mixed with parsed ones
+// ops: {"add":[b,e,s]} | {"parse":"expr"} (well-formed expressions only).  A block (b,e,s) denotes b, b+s, ... up to and
+// including the last value that does not pass e (e need not lie on the grid).
+static Result run_range_add(const json &c) {
+  Result r;
+  votca::tools::RangeParser rp;
+  std::vector<long> exp;
+  std::string what;
+  bool offgrid = false, mixed_parse = false;
+  for (auto &op : c.at("ops")) {
+    if (op.contains("add")) {
+      long b = op["add"][0], e = op["add"][1], st = op["add"][2];
+      if (st == 0 || (e - b) * st < 0) {
+        r.discard = true;  // no documented meaning
+        return r;
+      }
+      for (long v = b; st > 0 ? v <= e : v >= e; v += st) exp.push_back(v);
+      if ((e - b) % st != 0) offgrid = true;
+      rp.Add(b, e, st);
+      what += fmt("Add(%ld,%ld,%ld) ", b, e, st);
+    } else {
+      std::string expr = op.at("parse");
+      RefRange R = ref_range(expr);
+      if (R.kind != RefRange::OK) {
+        r.discard = true;
+        return r;
+      }
+      exp.insert(exp.end(), R.seq.begin(), R.seq.end());
+      try {
+        rp.Parse(expr);
+      } catch (const std::exception &ex) {
+        r.fail("RangeParser/rejects-valid", what + "Parse('" + expr + "') rejected: " + ex.what());
+        return r;
+      }
+      what += "Parse('" + expr + "') ";
+      mixed_parse = true;
+    }
+  }
+  if (exp.size() > 9000) {
+    r.discard = true;
+    return r;
+  }
+  r.nontrivial = offgrid;
+  if (offgrid) r.cls("Add-with-end-off-the-stride-grid");
+  if (mixed_parse) r.cls("Add-mixed-with-Parse");
+  std::vector<long> got;
+  long steps = 0;
+  bool term = true;
+  for (auto it = rp.begin(); it != rp.end(); ++it) {
+    if (++steps > 10000) {
+      term = false;
+      break;
+    }
+    got.push_back(*it);
+  }
+  if (!term)
+    r.fail("RangeParser/Add-nontermination", what + "does not terminate within 10000 steps (denotes " + show(exp) + ")");
+  else if (got != exp)
+    r.fail("RangeParser/Add-sequence", what + "enumerates " + show(got) + ", denotes " + show(exp));
+  else {
+    std::ostringstream os;
+    os << rp;
+    Enumerated E2 = impl_range(os.str());
+    if (!E2.accepted || !E2.terminated || E2.seq != exp)
+      r.fail("RangeParser/Add-print-parse", what + "printed as '" + os.str() + "' re-parses to " + show(E2.seq) + " instead of " + show(exp));
+  }
+  return r;
+}
+static json gen_range_add() {
+  json ops = json::array();
+  int n = ri(1, 4);
+  for (int i = 0; i < n; ++i) {
+    if (rbool(70)) {
+      long st = rbool(25) ? 1 : ri(2, 9);
+      if (rbool(35)) st = -st;
+      long b = ri(-40, 60), len = ri(0, 40);
+      long e = b + (st > 0 ? len : -len);
+      ops.push_back({{"add", {b, e, st}}});
+    } else {
+      long b = ri(0, 50), st = ri(1, 5), k = ri(0, 8);
+      ops.push_back({{"parse", std::to_string(b) + ":" + std::to_string(st) + ":" + std::to_string(b + st * k)}});
+    }
+  }
+  return json{{"ops", ops}};
+}
+static void enum_range_add(int level, const std::function<bool(const json &)> &emit) {
+  int W = std::min(level, 6);
+  for (int b = -W; b <= W; ++b)
+    for (int e = -W; e <= W; ++e)
+      for (int st = -W; st <= W; ++st) {
+        if (st == 0 || (e - b) * st < 0) continue;
+        if (!emit(json{{"ops", {{{"add", {b, e, st}}}}}})) return;
+        if (!emit(json{{"ops", {{{"add", {b, e, st}}}, {{"parse", "20:21"}}}}})) return;
+      }
+}
+
 // ------------------------------------------------------------ index parser
 static Result run_index(const json &c) {
   Result r;
@@ -319,6 +415,23 @@ static Result run_beads(const json &c) {
   r.cls(by_name ? "by-name" : "by-type");
   if (n != Index(got.size()) || got != exp)
     r.fail("BeadList/select", "select '" + sel + "' returned " + show(got) + ", expected " + show(exp));
+  // the same selection through the spherical-subvolume entry point (open box, beads on a line 0.5 apart): the beads
+  // within the radius that match
+  if (r.ok && c.contains("radius2")) {
+    long rad2 = c.at("radius2");  // radius = rad2/4 + 1/8: never a tie
+    double radius = double(rad2) / 4.0 + 0.125;
+    for (size_t i = 0; i < beads.size(); ++i) top.getBead(Index(i))->setPos(Eigen::Vector3d(0.5 * double(i), 0, 0));
+    std::vector<long> exps;
+    for (long id : exp)
+      if (0.5 * double(id) <= radius) exps.push_back(id);
+    BeadList bs;
+    Index ns = bs.GenerateInSphericalSubvolume(top, sel, Eigen::Vector3d::Zero(), radius);
+    std::vector<long> gots;
+    for (auto *b : bs) gots.push_back(b->getId());
+    r.cls(by_name ? "subvolume-by-name" : "subvolume-by-type");
+    if (ns != Index(gots.size()) || gots != exps)
+      r.fail("BeadList/select-subvolume", fmt("GenerateInSphericalSubvolume('%s', radius %.3f) returned ", sel.c_str(), radius) + show(gots) + ", expected " + show(exps));
+  }
   return r;
 }
 
@@ -346,13 +459,16 @@ static json gen_beads() {
     }
     if (rbool(30)) pat += '*';
   }
-  return json{{"beads", beads}, {"select", (rbool(50) ? "name:" : "") + pat}};
+  json c{{"beads", beads}, {"select", (rbool(50) ? "name:" : "") + pat}};
+  if (rbool(60)) c["radius2"] = rbool(30) ? 4000 : ri(0, 2 * n + 2);
+  return c;
 }
 
 int main(int argc, char **argv) {
   std::vector<Sub> subs;
   subs.push_back({"wildcmp", gen_wild, run_wild, 3.0, 100, enum_wild});
   subs.push_back({"range", gen_range, run_range, 2.0, 100, enum_range});
+  subs.push_back({"range_add", gen_range_add, run_range_add, 1.0, 100, enum_range_add});
   subs.push_back({"index", gen_index, run_index, 1.0, 100, nullptr});
   subs.push_back({"beadselect", gen_beads, run_beads, 1.0, 100, nullptr});
   return harness_main(argc, argv, "C18", subs);
